@@ -208,8 +208,15 @@ class MultipartDecoder:
                 # No complete boundary in the buffer, but there may be
                 # a partial boundary at the end. As the boundary
                 # starts with either a nl or cr find the earliest and
-                # return up to that as data.
-                data_length = del_index = self.last_newline()
+                # return up to that as data. A partial boundary is a proper
+                # prefix of CRLF + "--" + boundary, so it lies entirely within
+                # the last len(boundary) + 4 bytes: everything before that is
+                # data, however far back the last line break is (otherwise a
+                # part starting with CR and containing no further line break
+                # would be buffered whole and re-scanned on every chunk).
+                data_length = del_index = max(
+                    self.last_newline(), len(self.buffer) - len(self.boundary) - 4
+                )
                 more_data = True
             else:
                 match = self.boundary_re.search(self.buffer)
